@@ -57,7 +57,8 @@ def check_fock_state(ctx, sf, st, rp, what):
 
 def check_bosonic_state(ctx, sf, st, rp):
     w = np.asarray(st.weights())
-    if abs(np.sum(w) - 1) > 1e-8:
+    # Fock / GKP approximations carry large alternating weights: judge the sum relative to its conditioning
+    if abs(np.sum(w) - 1) > 1e-8 + 1e-10 * float(np.sum(np.abs(w))):
         ctx.fail("bosonic:weights-not-normalised", f"bosonic weights sum to {np.sum(w)}", rp)
     covs = np.asarray(st.covs())
     for c in covs[: 8]:
